@@ -1165,8 +1165,8 @@ static void build_cases(int tier)
 	add_case(CT_SEED, s, 0, 0, 1, 0);
 	for (int k = 0; k < NKINDS; ++k) {
 	    long n = dev_count(d, k);
-	    long chunk = (k == K_KW || k == K_YSUB || k == K_REDECL) ? 2 :
-		(k == K_NUM) ? 4 : 12;
+	    long chunk = (k == K_KW || k == K_YSUB || k == K_REDECL ||
+		    k == K_LINEINS) ? 2 : (k == K_NUM) ? 4 : 12;
 	    if ((sd->flags & SF_LIGHT) && !(k == K_TRUNC || k == K_LINEDEL ||
 			k == K_LINEDUP || k == K_LINESWAP))
 		continue;
@@ -1185,6 +1185,8 @@ static void build_cases(int tier)
 		if ((k == K_YSUB) && sd->format != F_VNACAL &&
 			sd->format != F_YAML)
 		    continue;
+		if (k == K_LINEINS)
+		    continue;		/* level 1 only */
 		for (long p = 0; p < n; ++p)
 		    add_case(CT_DEV2, s, k, p, p + 1, 0);
 	    }
